@@ -22,7 +22,7 @@
    is NOT ENABLED and the trace is rejected at that event.
    There is no action for "Timeout", "WorkerDied" or "LoopOverrun": an execution that had to be killed
    (CPU / wall budget), whose process died, or in which one `while` loop of the library iterated more
-   than 256 * len(input) + 2^20 times (progress monitor) is rejected at that event (termination clause). *)
+   than 16 * len(input) + 2^21 times (progress monitor) is rejected at that event (termination clause). *)
 EXTENDS Surface, Json, IOUtils, TLCExt
 
 Traces == JsonDeserialize(IOEnv.TRACE_FILE)
